@@ -408,10 +408,10 @@ fn cond_seed() -> impl Strategy<Value = CondSeed> {
 
 fn q_strategy(depth: u32) -> impl Strategy<Value = Q> {
     let inject = prop_oneof![90 => Just(0u8), 1 => Just(1u8), 1 => Just(2u8), 1 => Just(3u8), 1 => Just(4u8), 1 => Just(5u8), 1 => Just(6u8), 1 => Just(7u8), 12 => Just(8u8)];
-    let leaf = (0u8..3, prop::collection::vec(any::<u16>(), 0..3), prop::option::weighted(0.4, cond_seed()), inject.clone())
+    let leaf = (0u8..3, prop::collection::vec(any::<u16>(), 0..5), prop::option::weighted(0.4, cond_seed()), inject.clone())
         .prop_map(|(t, proj, cond, inject)| Q { src: Src::Table(t), proj: if proj.len() == 2 { vec![] } else { proj }, cond, inject });
     leaf.prop_recursive(depth, 10, 2, move |inner| {
-        (any::<bool>(), inner.clone(), inner, cond_seed(), prop::collection::vec(any::<u16>(), 0..3), prop::option::weighted(0.3, cond_seed()), prop_oneof![60 => Just(0u8), 1 => Just(1u8), 1 => Just(2u8), 3 => Just(3u8), 1 => Just(5u8), 1 => Just(6u8), 3 => Just(7u8)])
+        (any::<bool>(), inner.clone(), inner, cond_seed(), prop::collection::vec(any::<u16>(), 0..5), prop::option::weighted(0.3, cond_seed()), prop_oneof![60 => Just(0u8), 1 => Just(1u8), 1 => Just(2u8), 3 => Just(3u8), 1 => Just(5u8), 1 => Just(6u8), 3 => Just(7u8)])
             .prop_map(|(left, l, r, on, proj, cond, inject)| Q { src: Src::Join { left, l: Box::new(l), r: Box::new(r), on }, proj: if proj.len() == 2 { vec![] } else { proj }, cond, inject })
     })
 }
@@ -424,7 +424,7 @@ fn case_strategy(depth: u32) -> impl Strategy<Value = Case> {
 pub fn run(ctx: &Ctx) -> Report {
     let mut rep = Report::new(
         "exploration",
-        "select trees up to depth 3 (4 in thorough) over three base tables (one with a dotted name and a dotted column name), filters, projections, inner and left joins including joins of joins, joins of filtered and of projected sub-selects and self-joins, ON conditions over both sides' columns (late-bound to the documented table.column names), unknown table / column names (also real names with the case of one letter flipped) injected in projection, filter and ON; identity projections (every column in order); table contents of 0..4 rows with nulls in join columns; one case in four stores its strings under Windows-1252 (two different unrepresentable texts become the same '?' in two pool entries) and reopens before querying, the reference then works on the base tables as read back. Oracle: reference executor (naming rule, nested-loop order, null padding and nullability in left joins, filter, projection): column names, row order, values and nullability must match; unknown names must be reported as errors (also when a side is empty); no panic. Queries that refer to a duplicated column name are skipped (resolution undocumented). Non-trivial = a join with at least one matched and one unmatched pair; distinct by (query, data).",
+        "select trees up to depth 3 (4 in thorough) over three base tables (one with a dotted name and a dotted column name), filters, projections, inner and left joins including joins of joins, joins of filtered and of projected sub-selects and self-joins, ON conditions over both sides' columns (late-bound to the documented table.column names), unknown table / column names (also real names with the case of one letter flipped) injected in projection, filter and ON; identity projections (every column in order); projections of up to four columns drawn with replacement (repeats, in and out of table order); table contents of 0..4 rows with nulls in join columns; one case in four stores its strings under Windows-1252 (two different unrepresentable texts become the same '?' in two pool entries) and reopens before querying, the reference then works on the base tables as read back. Oracle: reference executor (naming rule, nested-loop order, null padding and nullability in left joins, filter, projection): column names, row order, values and nullability must match; unknown names must be reported as errors (also when a side is empty); no panic. Queries that refer to a duplicated column name are skipped (resolution undocumented). Non-trivial = a join with at least one matched and one unmatched pair; distinct by (query, data).",
     );
     let mut st = Stats::new();
     let depth = ctx.tier.pick(3, 4);
